@@ -91,7 +91,8 @@ def gen_input_from(rng, TABLES, COLUMNS, QNAMES, benign):
 
 HEADER = "From Verif Require Import Spec.GoPkgWf.\nOpen Scope string_scope. Open Scope list_scope.\n"
 WF_CLASS = {1: "duplicate_top_level_identifier", 2: "duplicate_method_or_field", 3: "qualifier_used_but_not_imported",
-            4: "import_not_used", 5: "parameter_or_local_declared_twice", 6: "parameter_or_local_shadows_a_package"}
+            4: "import_not_used", 5: "parameter_or_local_declared_twice", 6: "parameter_or_local_shadows_a_package",
+            7: "parameter_or_local_declared_twice"}
 
 
 def pkg_coq(summary):
@@ -101,9 +102,10 @@ def pkg_coq(summary):
         fields = ["(%s, %s)" % (coqstr(st["name"]), coqlist([coqstr(x["name"]) for x in st["fields"] if x["name"]])) for st in f.get("structs", [])]
         methods = []
         for m in f.get("methods", []):
-            methods.append("(mkGM %s %s %s %s %s %s)" % (coqstr(m["recv"]), coqstr(m["name"]), coqstr(m.get("recv_name", "")),
+            methods.append("(mkGM %s %s %s %s %s %s %s)" % (coqstr(m["recv"]), coqstr(m["name"]), coqstr(m.get("recv_name", "")),
                                                        coqlist([coqstr(p["name"]) for p in m["params"] if p["name"]]),
-                                                       coqlist([coqstr(x) for x in m["locals"]]), coqlist([coqstr(x) for x in m.get("shadowed", [])])))
+                                                       coqlist([coqstr(x) for x in m["locals"]]), coqlist([coqstr(x) for x in m.get("shadowed", [])]),
+                                                       coqlist([coqstr(x) for x in m.get("inner_shadow", [])])))
         files.append("(mkGF %s %s %s %s %s %s)" % (coqstr(fname), coqlist([coqstr(x) for x in f.get("import_names", [])]),
                                                  coqlist([coqstr(x) for x in f.get("qualifiers", [])]), coqlist([coqstr(x) for x in decls]),
                                                  coqlist(fields), coqlist(methods)))
